@@ -1,6 +1,6 @@
 (* C16 — proofs about the csv.reader machine: the QUOTE_MINIMAL writer round-trips through it. *)
 From Coq Require Import List NArith Bool Lia.
-From Outrank Require Import IO.Str IO.Csv.
+From Outrank Require Import IO.Str IO.StrProofs IO.Csv.
 Import ListNotations.
 Open Scope N_scope.
 
@@ -133,17 +133,123 @@ Proof.
   - cbn [join]. destruct (render_field f); discriminate.
 Qed.
 
-Theorem roundtrip fs : fs <> [] -> parse (render fs ++ [LF]) = Some fs.
+Lemma done_eol s f a : done_with s f a -> step s None = mk StartRecord [] (f :: a).
+Proof.
+  intros [Ha [[Hs [Hp _]]|[[Hs Hp]|[Hs [Hp Hf]]]]]; destruct s as [s0 p a0]; cbn in *; subst; reflexivity.
+Qed.
+
+Lemma is_nl_cases c : is_nl c = true -> c = LF \/ c = CR.
+Proof. unfold is_nl. intros H. apply orb_true_iff in H. destruct H as [H|H]; apply N.eqb_eq in H; auto. Qed.
+
+Lemma done_nl s f a c : is_nl c = true -> done_with s f a -> step s (Some c) = mk EatCRNL [] (f :: a).
+Proof.
+  intros Hc Hd. apply is_nl_cases in Hc. destruct Hc as [-> | ->]; [apply done_lf, Hd|].
+  destruct Hd as [Ha [[Hs [Hp _]]|[[Hs Hp]|[Hs [Hp Hf]]]]]; destruct s as [s0 p a0]; cbn in *; subst; reflexivity.
+Qed.
+
+Lemma run_eat term : forall a, forallb is_nl term = true -> run (mk EatCRNL [] a) term = mk EatCRNL [] a.
+Proof.
+  induction term as [|c term IH]; intros a H; [reflexivity|]. cbn [forallb] in H. apply andb_true_iff in H.
+  destruct H as [Hc Ht]. rewrite run_cons.
+  assert (E : step (mk EatCRNL [] a) (Some c) = mk EatCRNL [] a). { unfold step. cbn [state]. rewrite Hc. reflexivity. }
+  rewrite E. apply IH, Ht.
+Qed.
+
+(* after the rendered record the machine has every field but the last saved, and the last one complete *)
+Lemma run_render fs : fs <> [] ->
+  exists f0 rest, fs = rest ++ [f0] /\ done_with (run init (render fs)) f0 (rev rest).
 Proof.
   intros Hne.
   assert (Hcase : fs = [[]] \/ fs <> [[]]).
   { destruct fs as [|[|c f] [|g r]]; try (right; discriminate); try (left; reflexivity). }
-  destruct Hcase as [-> | Hne2]; [reflexivity|].
-  assert (Hr : render fs = join fs).
-  { destruct fs as [|[|c f] [|g r]]; try reflexivity. congruence. }
-  rewrite Hr. unfold parse. rewrite run_app.
-  unfold init. rewrite start_record_as_field; [| apply join_nonempty; assumption | intros c l' E; eapply join_head; exact E].
-  destruct (run_join fs [] Hne) as [s [Hs [f0 [rest [Hfs Hd]]]]]. rewrite Hs.
-  rewrite run_cons. rewrite (done_lf s f0 _ Hd). cbn [run fold_left step state goto acc pend].
-  rewrite app_nil_r. cbn [rev]. rewrite rev_involutive. f_equal. symmetry. exact Hfs.
+  destruct Hcase as [-> | Hne2].
+  - exists [], []. split; [reflexivity|]. split; [reflexivity|]. right; left. split; reflexivity.
+  - assert (Hr : render fs = join fs).
+    { destruct fs as [|[|c f] [|g r]]; try reflexivity. congruence. }
+    rewrite Hr. unfold init.
+    rewrite start_record_as_field; [| apply join_nonempty; assumption | intros c l' E; eapply join_head; exact E].
+    destruct (run_join fs [] Hne) as [s [Hs [f0 [rest [Hfs Hd]]]]]. rewrite Hs.
+    exists f0, rest. split; [exact Hfs|]. rewrite app_nil_r in Hd. exact Hd.
 Qed.
+
+(* the writer's record followed by any terminator made of CR / LF characters (LF as the streaming loop
+   sees it, CR LF as csv.writer emits it, nothing for a last line without terminator) *)
+Theorem roundtrip_term fs term : fs <> [] -> forallb is_nl term = true -> parse (render fs ++ term) = Some fs.
+Proof.
+  intros Hne Ht. destruct (run_render fs Hne) as (f0 & rest & Hfs & Hd).
+  unfold parse. rewrite run_app. destruct term as [|c term].
+  - cbn [run fold_left]. rewrite (done_eol _ _ _ Hd). cbn [state acc]. cbn [rev]. rewrite rev_involutive.
+    f_equal. symmetry. exact Hfs.
+  - cbn [forallb] in Ht. apply andb_true_iff in Ht. destruct Ht as [Hc Ht].
+    rewrite run_cons, (done_nl _ _ _ c Hc Hd), run_eat by exact Ht.
+    cbn [step state goto acc pend]. cbn [rev]. rewrite rev_involutive. f_equal. symmetry. exact Hfs.
+Qed.
+
+Theorem roundtrip fs : fs <> [] -> parse (render fs ++ [LF]) = Some fs.
+Proof. intros Hne. apply roundtrip_term; [exact Hne|reflexivity]. Qed.
+
+(* ---------- physical lines ---------- *)
+
+Lemma none_nl_esc f : none is_nl f -> none is_nl (esc f).
+Proof.
+  induction f as [|c f IH]; intros H; [reflexivity|]. apply none_cons in H. destruct H as [Hc Hf].
+  unfold esc. cbn [flat_map]. fold (esc f). apply none_app. split; [|auto].
+  destruct (c =? QUOTE) eqn:E.
+  - apply N.eqb_eq in E. subst c. reflexivity.
+  - apply none_cons. split; [exact Hc|reflexivity].
+Qed.
+
+Lemma none_nl_render_field f : none is_nl f -> none is_nl (render_field f).
+Proof.
+  intros H. unfold render_field. destruct (needs_quote f); [|exact H].
+  apply none_cons. split; [reflexivity|]. apply none_app. split; [apply none_nl_esc, H|reflexivity].
+Qed.
+
+Lemma none_nl_join fs : Forall (none is_nl) fs -> none is_nl (join fs).
+Proof.
+  induction fs as [|f fs IH]; intros H; [reflexivity|]. inversion H as [|? ? Hf H']; subst.
+  destruct fs as [|g fs']; [apply none_nl_render_field, Hf|].
+  change (join (f :: g :: fs')) with (render_field f ++ COMMA :: join (g :: fs')).
+  apply none_app. split; [apply none_nl_render_field, Hf|]. apply none_cons. split; [reflexivity|apply IH, H'].
+Qed.
+
+Lemma none_nl_render fs : Forall (none is_nl) fs -> none is_nl (render fs).
+Proof.
+  intros H. unfold render. destruct fs as [|[|c f] [|g r]]; try apply none_nl_join, H. reflexivity.
+Qed.
+
+(* records whose cells contain no line break are exactly the physical lines of the file *)
+Theorem csv_physical_lines rows : Forall (Forall (none is_nl)) rows ->
+  phys_lines (concat (map (fun r => render r ++ [LF]) rows)) = map (fun r => render r ++ [LF]) rows.
+Proof.
+  intros H. rewrite <- (map_map render (fun l => l ++ [LF])). apply phys_lines_concat.
+  apply Forall_map. eapply Forall_impl; [|exact H]. intros r. apply none_nl_render.
+Qed.
+
+(* why the hypothesis is needed: a quoted cell with a line break is legal CSV, but the pipeline reads
+   physical lines; the record x,"y LF z,w" splits into two lines that BOTH pass the two-column
+   field-count test with wrong cells *)
+Theorem csv_linebreak_hypothesis_needed :
+  exists row : list (list N),
+    length row = 2%nat /\
+    parse (render row ++ [LF]) = Some row /\
+    exists r1 r2, map parse (phys_lines (render row ++ [LF])) = [Some r1; Some r2] /\
+                  length r1 = 2%nat /\ length r2 = 2%nat /\ r1 <> row /\ r2 <> row.
+Proof.
+  exists [[120]; [121; 10; 122; 44; 119]]. split; [reflexivity|]. split; [vm_compute; reflexivity|].
+  exists [[120]; [121; 10]], [[122]; [119; 34]]. vm_compute. repeat split; discriminate.
+Qed.
+
+(* splitting on commas instead of running the reader mis-aligns quoted cells *)
+Theorem csv_naive_refuted :
+  exists row : list (list N), Forall (none is_nl) row /\ parse (render row ++ [LF]) = Some row /\
+    parse_naive (render row ++ [LF]) <> row /\ length (parse_naive (render row ++ [LF])) <> length row.
+Proof.
+  exists [[97; 44; 98]; [99]]. split; [repeat constructor|]. split; vm_compute; [reflexivity|]. split; discriminate.
+Qed.
+
+Example csv_nonvacuous :
+  let row := [[]; [97; 44; 34; 98; 34]; [32; 120; 32]; []; [233; 9; 8364]; [34]] in
+  render row = [44; 34; 97; 44; 34; 34; 98; 34; 34; 34; 44; 32; 120; 32; 44; 44; 233; 9; 8364; 44; 34; 34; 34; 34] /\
+  parse (render row ++ [LF]) = Some row.
+Proof. split; vm_compute; reflexivity. Qed.
